@@ -219,6 +219,34 @@ func UncompilableModules() []Module {
 	for _, c := range uncompilableClasses {
 		add(c, uncompilableSingles[c])
 	}
+	add("operator-names", operatorNameModules())
+	return res
+}
+
+// operatorNameModules (round 3): `x = 1` IS eq(x, 1) in the AST, `a + b` is plus(a, b), `x := 1` is assign(x, 1): a rule
+// that takes a call apart by the NAME of its operator finds a user-defined rule or function of that name among the
+// names of the package (the parser accepts the definition; regal never compiles the linted files). Every infix operator
+// name x every kind of definition (plain rule, functions of arity 1, 2 and 3, a ref head) x a body that uses every
+// infix operator as sugar, and one that calls the name with 1, 2 and 3 arguments.
+func operatorNameModules() []string {
+	names := []string{"eq", "assign", "equal", "neq", "gt", "gte", "lt", "lte", "plus", "minus", "mul", "div", "rem", "and", "or"}
+	sugar := "r if {\n\tx = 1\n\ty := 2\n\tx == y\n\tx != y\n\tx < y\n\tx <= y\n\tx > y\n\tx >= y\n\tz := ((x + y) - (x * y)) / (x % y)\n\tw := {1} & {2} | {z}\n\tw\n}\n\ns = 1 if input.x = 2\n"
+	var res []string
+	for _, n := range names {
+		defs := []string{
+			fmt.Sprintf("%s := 1", n),
+			fmt.Sprintf("%s(a) := a", n),
+			fmt.Sprintf("%s(a, b) := a if b", n),
+			fmt.Sprintf("%s(a, b, c) := a if {\n\tb\n\tc\n}", n),
+			fmt.Sprintf("%s.sub(a) := a", n),
+		}
+		for i, d := range defs {
+			res = append(res, d+"\n\n"+sugar)
+			if i > 0 {
+				res = append(res, fmt.Sprintf("%s\n\nr if {\n\t%s(input.a)\n\t%s(input.a, 2)\n\t%s(input.a, 2, v)\n\tv\n}\n", d, n, n, n))
+			}
+		}
+	}
 	return res
 }
 
